@@ -52,7 +52,7 @@ static void h_page_free(void *p);
 #undef free
 
 #define PAGE ((size_t)AWS_SBA_PAGE_SIZE)
-#define HP_WANT_BASE ((uintptr_t)0x600000000000ull)
+#define HP_WANT_BASE ((uintptr_t)0x500000000000ull)
 #define HP_NPAGES 24
 #define HP_STRIDE (2 * PAGE) /* page + poisoned guard gap; keeps PAGE alignment */
 
